@@ -19,7 +19,7 @@ REQUIRED = ["accept-roundtrip", "accept-derives-reference-key", "reject-2^31", "
             "reject-40-digits", "reject-empty-component", "reject-missing-root", "reject-negative", "reject-fraction", "reject-non-numeric",
             "reject-double-marker", "reject-inner-whitespace", "accept-index-2^31-1", "accept-index-0", "for-index-ok", "for-index-2^31-1",
             "for-index>=2^31-error", "for-index>=2^32-error", "cli-account-index-ok", "cli-account-index>=2^31-error",
-            "cli-account-index>=2^32-error", "cli-hd-path-ok", "cli-hd-path-rejected", "accept-depth>=8"]
+            "cli-account-index>=2^32-error", "cli-hd-path-ok", "cli-hd-path-rejected", "accept-depth>=8", "accept-depth>=256"]
 _CANON = re.compile(r"(0|[1-9][0-9]*)('?)\Z")
 _LOOSE = re.compile(r"\+?([0-9]+)('?)\Z")
 
@@ -112,6 +112,8 @@ def judge_parse(case, obs):
             v.bucket("accept-index-0")
         if len(comps) >= 8:
             v.bucket("accept-depth>=8")
+        if len(comps) >= 256:
+            v.bucket("accept-depth>=256")
     elif cls == "reject":
         if "ok" in o:
             return v.bad("C14/%s/accepted" % comps, "path %r accepted (prints as %r)" % (text[:80], o["ok"]["printed"][:80]))
@@ -247,6 +249,17 @@ def gen(shard, rng, tier):
             for b in BIG:
                 for t in ("m/%d", "m/%d'", "m/44'/60'/0'/0/%d", "m/%d'/0", "m/0/%d/1'"):
                     yield from both(lib_case("parse", {"op": "path.parse", "text": t % b}, {"cls": "big-index"}))
+            # very deep paths: every component counts, wherever it sits
+            for depth in (31, 32, 33, 64, 127, 128, 129, 254, 255, 256, 257, 300, 1000, 5000):
+                comps = [(rng.choice([0, 1, 2**31 - 1, rng.randrange(2**31)]), rng.random() < 0.5) for _ in range(depth)]
+                t = eth.format_path(comps)
+                yield from both(lib_case("parse", {"op": "path.parse", "text": t}, {"cls": "deep"}))
+                for tail in ("/x", "/-1", "/2147483648", "/", "/1.5", "/0''"):
+                    yield from both(lib_case("parse", {"op": "path.parse", "text": t + tail}, {"cls": "deep-malformed-tail"}))
+                if depth <= 300:
+                    seed = rand_bytes(rng, 32).hex()
+                    yield {"j": "derive", "profile": "release", "x": {"cls": "deep-derive"},
+                           "steps": [{"lib": {"op": "path.parse", "text": t}}, {"lib": {"op": "hdk.derive", "seed": seed, "path": t}}]}
         for _ in range(shard["count"]):
             t = rand_canonical(rng) if rng.random() < 0.4 else mutate_path(rng)
             yield from both(lib_case("parse", {"op": "path.parse", "text": t}, {"cls": "path"}))
